@@ -130,3 +130,26 @@ void h_grow(void)
 	__CPROVER_assert(g_pull == 1 && g_pull_index == 128 && g_frees == 0, "[C05] the new element is sifted up from its slot");
 	CANARY();
 }
+
+/* ---- iv_timer_deinit: every level above the first leaf is released ---------------------- */
+void h_deinit(void)
+{
+	struct iv_timer_ratnode *l2root, *mid0, *mid1, *leafA, *leafB;
+
+	VERIF_IN_LOAD();
+	verif_st = &v_state;
+	/* three-level store: root2 -> { mid0 -> { first_leaf, leafA }, mid1 -> { leafB } } */
+	l2root = calloc(1, sizeof(*l2root)); mid0 = calloc(1, sizeof(*mid0)); mid1 = calloc(1, sizeof(*mid1));
+	leafA = calloc(1, sizeof(*leafA)); leafB = calloc(1, sizeof(*leafB));
+	__CPROVER_assume(l2root && mid0 && mid1 && leafA && leafB);
+	l2root->child[0] = mid0; l2root->child[1] = mid1;
+	mid0->child[0] = &v_state.ratnode.first_leaf; mid0->child[1] = leafA;
+	mid1->child[0] = leafB;
+	v_state.ratnode.timer_root = l2root;
+	v_state.rat_depth = 2;
+	v_state.num_timers = 0;
+	iv_timer_deinit(&v_state);
+	__CPROVER_assert(v_state.rat_depth == 0 && v_state.ratnode.timer_root == NULL, "[C18] the store is dismantled");
+	__CPROVER_assert(g_frees == 5, "[C18] every node above the embedded first leaf is freed exactly once (double frees and leaks are also CBMC failures)");
+	CANARY();
+}
